@@ -28,6 +28,7 @@ type Case struct {
 	Des     Schema
 	Inserts []string
 	Edits   []string
+	Exclude []string // tables whose changes are left out of the change set (`--exclude`): they must be left alone
 }
 
 type ModeResult struct {
@@ -93,7 +94,7 @@ func planKinds(ctx context.Context, client *sqlclient.Client, changes []schema.C
 	var ks, creates []string
 	for _, c := range p.Changes {
 		if m := reCreateTable.FindStringSubmatch(strings.Join(strings.Fields(c.Cmd), " ")); m != nil {
-			creates = append(creates, "create "+hx(m[1])+" "+createOpts(c.Cmd))
+			creates = append(creates, "create "+hx(m[1])+" "+createOpts(c.Cmd)+" "+createColTypes(c.Cmd))
 		}
 		f := strings.Fields(c.Cmd)
 		k := strings.ToUpper(f[0])
@@ -146,6 +147,24 @@ func runMode(ctx context.Context, c *Case, m Mode, dir string) (res ModeResult) 
 	if err != nil {
 		res.Skip = "diff-error: " + err.Error()
 		return
+	}
+	if len(c.Exclude) > 0 {
+		var keep []schema.Change
+		for _, ch := range changes {
+			n := ""
+			switch ch := ch.(type) {
+			case *schema.AddTable:
+				n = ch.T.Name
+			case *schema.DropTable:
+				n = ch.T.Name
+			case *schema.ModifyTable:
+				n = ch.T.Name
+			}
+			if !has(c.Exclude, n) {
+				keep = append(keep, ch)
+			}
+		}
+		changes = keep
 	}
 	res.NChanges = len(changes)
 	res.Changes = changes
